@@ -468,12 +468,23 @@ func (e *engine) subsets(p *parserDef, m message, label string, masks []uint64, 
 	for i, mask := range masks {
 		single[mask] = i
 	}
-	cul := map[string]mon.Hex{}
+	msgName := label
+	if i := strings.IndexByte(label, '/'); i > 0 {
+		msgName = label[:i]
+	}
+	culBySig := map[string]map[string]mon.Hex{}
 	for i := range m {
 		mask := full &^ (1 << uint(i))
 		if k, ok := single[mask]; ok && res[k] == resPanic {
 			culprit |= 1 << uint(i)
-			cul[m[i].name] = build(mask)
+			b := build(mask)
+			if cr := call(p, b); cr.panicked {
+				sig := sigOf(p, cr.site)
+				if culBySig[sig] == nil {
+					culBySig[sig] = map[string]mon.Hex{}
+				}
+				culBySig[sig][msgName+"."+m[i].name] = b
+			}
 		}
 	}
 	// shields: fields whose absence makes the parser give up before it dereferences anything
@@ -518,15 +529,20 @@ func (e *engine) subsets(p *parserDef, m message, label string, masks []uint64, 
 		}
 		e.r.Note("%s [%s]: panics exactly when one of {%s} is absent (required fields present; no panic when {%s} is absent: the parser gives up earlier); outcomes not explained by that rule: %d %s",
 			p.name, label, strings.Join(names, ","), strings.Join(sh, ","), unexplained, ex)
-		if wrap == nil {
-			e.mu.Lock()
-			for _, rec := range e.panics {
-				if rec.parser == p.name && rec.culprits == nil {
-					rec.culprits = cul
+		e.mu.Lock()
+		for sig, cul := range culBySig {
+			if rec := e.panics[sig]; rec != nil {
+				if rec.culprits == nil {
+					rec.culprits = map[string]mon.Hex{}
+				}
+				for k, v := range cul {
+					if _, ok := rec.culprits[k]; !ok {
+						rec.culprits[k] = v
+					}
 				}
 			}
-			e.mu.Unlock()
 		}
+		e.mu.Unlock()
 	} else if unexplained > 0 {
 		e.r.Note("%s [%s]: %d panics on field subsets although no single omission panics, %s", p.name, label, unexplained, ex)
 	}
@@ -765,10 +781,10 @@ func rtCase(r *mon.Run, c Case, l lcnt) {
 func (e *engine) roundTrips() {
 	r := e.r
 	sizes := map[string][2]int{ // producible, arbitrary (per Local setting)
-		"header": {r.Pick(20000, 1000000), r.Pick(20000, 1000000)},
-		"tx":     {r.Pick(20000, 1000000), r.Pick(20000, 1000000)},
-		"block":  {r.Pick(3000, 150000), r.Pick(3000, 150000)},
-		"group":  {r.Pick(6000, 300000), r.Pick(6000, 300000)},
+		"header": {r.Pick(20000, 500000), r.Pick(20000, 500000)},
+		"tx":     {r.Pick(20000, 500000), r.Pick(20000, 500000)},
+		"block":  {r.Pick(3000, 100000), r.Pick(3000, 100000)},
+		"group":  {r.Pick(6000, 200000), r.Pick(6000, 200000)},
 		"member": {r.Pick(1000, 20000), 0},
 	}
 	for _, local := range []string{"UTC", "Asia/Shanghai"} {
